@@ -103,6 +103,23 @@ def work_small(shard):
                 pass
             out["failing_calls_interleaved"] = out.get("failing_calls_interleaved", 0) + 1
         multi = None
+        # the same graph with equal rows given as ONE shared list object (legal: rows are only read)
+        shared = {}
+        tl_shared = [shared.setdefault(r, list(r)) for r in tl]
+        if len(shared) < n:
+            out["shared_row_graphs"] = out.get("shared_row_graphs", 0) + 1
+            for f in fins[:3]:
+                exp, pred = oracle(tl, f)
+                try:
+                    got = R.reverse_dfs(tl_shared, list(f))
+                    tab = R.reverse_transition_list(tl_shared)
+                    ok = got == exp and all(sorted(tab[v]) == sorted(pred[v]) for v in range(n))
+                except Exception as e:                       # noqa: BLE001
+                    got, ok = "%s: %s" % (type(e).__name__, e), False
+                if not ok and len(out["violations"]) < 5:
+                    c = mk_case(tl, f, ("shared-row-objects", got, exp), "small n=%d" % n)
+                    c["config"] = {"shared_rows": True}
+                    out["violations"].append(c)
         for f in fins:
             res = check_one(tl, f, table=tabcheck)
             tabcheck = False
@@ -148,6 +165,9 @@ def family_graph(name, size):
         return tl, [size - 1]
     if name == "dag":              # complete DAG: i -> every j > i (capped fan-out 6)
         return [[(LABEL, j) for j in range(i + 1, min(size, i + 7))] for i in range(size)], [size - 1]
+    if name == "manyfinals":       # shallow graph, `size` final states (distinct, then a few repeated many times)
+        tl = [[(LABEL, size + (i % 3))] for i in range(size)] + [[(LABEL, size + 1)], [], [(LABEL, 0)]]
+        return tl, list(range(size)) + [0, 1] * (size // 2)
     if name == "selfloops":
         return [[(LABEL, i), (LABEL, i + 1 if i + 1 < size else i)] for i in range(size)], [size - 1, size - 1, 0]
     raise ValueError(name)
@@ -265,7 +285,7 @@ def plan(ctx):
         for lo, hi in par.ranges(size, ctx.jobs * 4 if size > 5000 else 1):
             shards.append(("small", n, deg, un, fl, lo, hi))
     sizes = [10, 100, 900, 1000, 1100, 5000, 20000]
-    for name in ("chain", "rchain", "cycle", "bintree", "ladder", "dag", "selfloops"):
+    for name in ("chain", "rchain", "cycle", "bintree", "ladder", "dag", "selfloops", "manyfinals"):
         for s in sizes:
             shards.append(("ladder", name, s))
     for n, full in ((9, True), (10, True), (12, True), (17, True), (33, False), (65, False), (130, False)):
@@ -292,7 +312,8 @@ def run(ctx):
                    "included) is a distinct case; non-trivial = some node has in-degree >= 2 (a state reached through "
                    "two predecessors or a parallel edge), plus every ladder/board graph",
            "spaces": spaces, "sparse_path_graphs_9_to_130_nodes": tot.get("sparse", 0),
-           "failing_calls_interleaved": tot.get("failing_calls_interleaved", 0), "ladder_graphs": tot.get("ladder", 0), "board_files": tot.get("boards", 0),
+           "failing_calls_interleaved": tot.get("failing_calls_interleaved", 0),
+           "graphs_also_run_with_shared_row_objects": tot.get("shared_row_graphs", 0), "ladder_graphs": tot.get("ladder", 0), "board_files": tot.get("boards", 0),
            "exhaustive": not truncated, "samples": tot["samples"]}
     return {"coverage": cov, "violations": tot["violations"],
             "assumptions": ["oracle: breadth-first closure over reversed edges written independently in the harness",
@@ -314,6 +335,18 @@ def replay(case):
                                       max_lines=len(g["transition_list"]) * 2000 + 10**6)
         return repr(val) if (st != "ok" or val) else None
     inp = case["input"]
+    if case.get("config", {}).get("shared_rows"):
+        tl = [tuple(tuple(t) for t in row) for row in inp["transition_list"]]
+        shared = {}
+        tls = [shared.setdefault(r, list(r)) for r in tl]
+        exp, pred = oracle(tl, inp["final_states"])
+        try:
+            got = R.reverse_dfs(tls, list(inp["final_states"]))
+            tab = R.reverse_transition_list(tls)
+            ok = got == exp and all(sorted(tab[v]) == sorted(pred[v]) for v in range(len(tl)))
+        except Exception as e:                               # noqa: BLE001
+            got, ok = repr(e), False
+        return None if ok else "shared row objects: %r, expected %r" % (got, exp)
     nn = len(inp["transition_list"])
     for bad in ([nn + 1, 0], [nn - 1, nn + 1], [0, -nn - 2, nn - 1]):
         try:
